@@ -392,6 +392,82 @@ def spec_check(sd, n):
     return bad, len(lines)
 
 
+# ---------------------------------------------------------------- the SQL-table model vs the real table, row by row
+def sql_rows_check(sd, n):
+    """Backends.sql_step (extracted) against a real sqltable_archive on integer keys/values:
+    the result of every operation AND the rows of the table (read through a second connection)"""
+    import sqlite3
+    import klepto.archives as ar
+    rng = random.Random('C03sql-%d' % sd)
+    sc = Scratch()
+    bad = []
+    nops = 0
+    try:
+        for case in range(n):
+            path = sc.new('.db')
+            a = ar.sqltable_archive('sqlite:///%s?table=memo' % path, cached=False)
+            lines, got = ['d.mode sql', 'd.reset'], ['ok', 'ok']
+            for _ in range(rng.randint(5, 25)):
+                k, v = rng.randint(0, 5), rng.randint(10, 99)
+                kind = rng.choice(['set', 'set', 'get', 'del', 'contains', 'len', 'getd', 'pop', 'popd', 'popkeys', 'popkeysd', 'setdefault', 'update', 'clear', 'items'])
+                try:
+                    if kind == 'set':
+                        a[k] = v; lines.append('d.set %d %d' % (k, v)); got.append('unit')
+                    elif kind == 'get':
+                        lines.append('d.get %d' % k); got.append('val %d' % a[k])
+                    elif kind == 'del':
+                        lines.append('d.del %d' % k); del a[k]; got.append('unit')
+                    elif kind == 'contains':
+                        lines.append('d.contains %d' % k); got.append('bool %d' % (1 if k in a else 0))
+                    elif kind == 'len':
+                        lines.append('d.len'); got.append('len %d' % len(a))
+                    elif kind == 'getd':
+                        lines.append('d.getd %d %d' % (k, v)); got.append('val %d' % a.get(k, v))
+                    elif kind == 'pop':
+                        lines.append('d.pop %d' % k); got.append('val %d' % a.pop(k))
+                    elif kind == 'popd':
+                        lines.append('d.popd %d %d' % (k, v)); got.append('val %d' % a.pop(k, v))
+                    elif kind == 'popkeys':
+                        ks = [rng.randint(0, 5) for _ in range(rng.randint(0, 3))]
+                        lines.append('d.popkeys ' + ' '.join(map(str, ks))); got.append(('vals ' + ' '.join(str(x) for x in a.popkeys(ks))).strip())
+                    elif kind == 'popkeysd':
+                        ks = [rng.randint(0, 5) for _ in range(rng.randint(0, 3))]
+                        lines.append('d.popkeysd %d %s' % (v, ' '.join(map(str, ks)))); got.append(('vals ' + ' '.join(str(x) for x in a.popkeys(ks, v))).strip())
+                    elif kind == 'setdefault':
+                        lines.append('d.setdefault %d %d' % (k, v)); got.append('val %d' % a.setdefault(k, v))
+                    elif kind == 'update':
+                        m = [(rng.randint(0, 5), rng.randint(10, 99)) for _ in range(rng.randint(0, 3))]
+                        lines.append('d.update ' + ' '.join('%d %d' % p for p in dict(m).items())); a.update(dict(m)); got.append('unit')
+                    elif kind == 'clear':
+                        lines.append('d.clear'); a.clear(); got.append('unit')
+                    elif kind == 'items':
+                        lines.append('d.items'); got.append('items*' + ' '.join(sorted('%d:%d' % p for p in a.items())))
+                except KeyError:
+                    got.append('keyerror')
+                # the rows, as another connection sees them
+                con = sqlite3.connect(path)
+                try:
+                    rows = list(con.execute('select * from memo order by rowid'))
+                finally:
+                    con.close()
+                lines.append('d.rows'); got.append(('rows ' + ' '.join('%d:%d' % (r[0], r[1]) for r in rows)).strip())
+            out = run_model(lines)
+            nops += len(lines)
+            for ln, o, g in zip(lines, out, got):
+                o = o.strip()
+                if g.startswith('items*'):
+                    o = 'items*' + ' '.join(sorted(o.split()[1:]))
+                if o != g.strip():
+                    bad.append((ln, o, g))
+                    break
+            if len(bad) > 3:
+                break
+        run_model(['d.mode dict'])
+    finally:
+        sc.close()
+    return bad, nops
+
+
 def _worker(args):
     sd, lo, hi, nops = args
     scratch = Scratch()
@@ -463,8 +539,10 @@ def main():
     n, nops = (5600, 70) if thorough else (560, 40)
     results = []
     spec_bad, spec_n = [], 0
+    sql_bad, sql_n = [], 0
     if pinfo.get('build_ok'):
         spec_bad, spec_n = spec_check(sd, 400 if thorough else 60)
+        sql_bad, sql_n = sql_rows_check(sd, 300 if thorough else 60)
         nproc = min(16, os.cpu_count() or 4)
         chunk = max(7, n // (nproc * 3))
         jobs = [(sd, lo, min(lo + chunk, n), nops) for lo in range(0, n, chunk)]
@@ -475,6 +553,9 @@ def main():
     if spec_bad:
         rep.violation('the Coq dict specification disagrees with a Python dict: %r gives %r, dict gives %r' % spec_bad[0],
                       {'broken': 'coq/Store/DictSpec.v vs Python dict', 'cases': spec_bad[:5]}, no_input=True)
+    if sql_bad:
+        rep.violation('the SQL-table model (coq/Store/Backends.v: sql_step) disagrees with sqltable_archive: after %r the model gives %r, the table %r' % sql_bad[0],
+                      {'broken': 'coq/Store/Backends.v sql_step vs klepto sqltable_archive (results and rows)', 'cases': sql_bad[:5]}, no_input=True)
     seen = set()
     kinds = {}
     per = {}
@@ -541,6 +622,7 @@ def main():
            'trusted_base': ['Coq 8.16.1 kernel', 'axioms: %s' % (', '.join(pinfo.get('axioms', [])) or 'none (Closed under the global context x%d)' % pinfo.get('closed', 0)),
                             'the dict specification coq/Store/DictSpec.v, compared with a Python dict on %d operations this run' % spec_n,
                             'backend models (file / sql table / directory) proved to refine it; the real backends compared with a Python dict after every step',
+                            'the SQL-table model compared with the real table row by row (and result by result) on %d model commands this run' % sql_n,
                             'dill / json / repr+import round trips, sqlite3, the file system'],
            'theorems': pinfo.get('theorems', []), 'print_assumptions': pinfo.get('print_assumptions', ''),
            'evaluations': len(results), 'distinct_nontrivial': len([r for r in results if r.get('n', 0) >= 5]),
